@@ -113,6 +113,14 @@ PROPS["C08"] = doc_prop(
     nontrivial_key="media_mixed", small=4,
     design=dict(quick=[bfs("MC_DocFilters", "DocFilters_q")], thorough=[bfs("MC_DocFilters", "DocFilters_t", timeout=3000)]))
 
+def _c09_wordcount_stage():
+    from props_C20 import reps
+    return dict(name="wordcount", handler="C20",
+                gen=dict(runs=dict(quick=[bfs("MC_C20", "C20_quick")], thorough=[bfs("MC_C20", "C20_thorough")])),
+                expand=reps, sample=dict(quick=None, thorough=None),
+                trace=dict(module="CallsTrace", cfg="CallsTrace"), eval_key="calls", run_to_case=lambda r: r // 1000)
+
+
 PROPS["C09"] = doc_prop(
     "C09",
     quick=[bfs("MC_C09", "C09_quick")],
@@ -160,3 +168,7 @@ for _f in sorted(_glob.glob(_os.path.join(_os.path.dirname(_os.path.abspath(__fi
     _m = _importlib.import_module(_os.path.splitext(_os.path.basename(_f))[0])
     PROPS.update(_m.PROPS)
     EXTRA_TEXT.update(getattr(_m, "TEXT", {}))
+
+# C09, word-count clause: title-less text-only pages with and without unlikely subtrees on both sides of the
+# two-pass threshold (the pages of C20), judged by C09_WordCountMatchesText in CallsTrace
+PROPS["C09"]["stages"].append(_c09_wordcount_stage())
